@@ -121,10 +121,57 @@ theorem loop_down_fold' (R : τ → σ) (f : τ → Nat → Res τ) (m : Nat)
     loop body (-1) n i0 s = ofRes (((List.range m).reverse.foldlM f t).map R) := by
   subst hs hn hi; exact loop_down_fold R body f n t hb
 
+/-! ### `for cond` loops -/
+
+theorem whileLoop_succ (body : σ → Ctl σ ρ) (n : Nat) (st : σ) :
+    whileLoop body (n + 1) st =
+      match body st with
+      | .next st' => whileLoop body n st'
+      | .brk st' => .brk st'
+      | .ret r => .ret r
+      | .panic f => .panic f := rfl
+
+/-- `for i := a; i < lim; i += d { step }` written as a `for cond` loop (non-constant stride `d ≥ 1`): `n` iterations -/
+theorem whileLoop_stride (R : τ → σ) (f : τ → Nat → Res τ) (a d lim : Nat) (body : σ × Int → Ctl (σ × Int) ρ)
+    (hin : ∀ j t, a + j * d < lim → body (R t, ((a + j * d : Nat) : Int)) =
+      match f t j with
+      | .ok t' => .next (R t', ((a + (j + 1) * d : Nat) : Int))
+      | .error e => .panic e)
+    (hout : ∀ j t, ¬ a + j * d < lim → body (R t, ((a + j * d : Nat) : Int)) = .brk (R t, ((a + j * d : Nat) : Int))) :
+    ∀ (n j : Nat) (t : τ) (fuel : Nat), n < fuel → (∀ i, j ≤ i → i < j + n → a + i * d < lim) → ¬ (a + (j + n) * d < lim) →
+      whileLoop body fuel (R t, ((a + j * d : Nat) : Int)) =
+        match (List.range' j n).foldlM f t with
+        | .ok t' => .brk (R t', ((a + (j + n) * d : Nat) : Int))
+        | .error e => .panic e := by
+  intro n
+  induction n with
+  | zero =>
+    intro j t fuel hf _ hend
+    obtain ⟨fuel, rfl⟩ : ∃ k, fuel = k + 1 := ⟨fuel - 1, by omega⟩
+    rw [whileLoop_succ, hout j t (by simpa using hend)]
+    simp [pure, Except.pure]
+  | succ n ih =>
+    intro j t fuel hf hlt hend
+    obtain ⟨fuel, rfl⟩ : ∃ k, fuel = k + 1 := ⟨fuel - 1, by omega⟩
+    rw [whileLoop_succ, hin j t (hlt j (Nat.le_refl j) (by omega))]
+    simp only [List.range', List.foldlM, bind, Except.bind]
+    cases hfj : f t j with
+    | error e => rfl
+    | ok t' =>
+      simp only []
+      have e : j + (n + 1) = (j + 1) + n := by omega
+      rw [e]
+      exact ih (j + 1) t' fuel (by omega) (fun i h1 h2 => hlt i (by omega) (by omega)) (by rw [← e]; exact hend)
+
 /-! ### normal form of the integer arithmetic of generated code (`gonorm`) -/
 
 theorem wrap_of_lt (bits : Nat) (e : Int) (h0 : 0 ≤ e) (h1 : e < 2 ^ bits) : wrap bits e = e := by
   unfold wrap; exact Int.emod_eq_of_lt h0 h1
+
+theorem wrap_nonneg (bits : Nat) (e : Int) : 0 ≤ wrap bits e := by
+  unfold wrap
+  have hp : (0 : Int) < 2 ^ bits := Int.pow_pos (by decide)
+  exact Int.emod_nonneg _ (by omega)
 
 /-- `x >> k` of a non-negative value -/
 theorem ishr_eq_div (e : Int) (k : Nat) (h : 0 ≤ e) : ishr e (k : Int) = e / (2 ^ k : Nat) := by
